@@ -65,12 +65,17 @@ func genHostile(t *rapid.T, thorough bool) (v, pad string, padN int) {
 	if rapid.IntRange(0, longOdds).Draw(t, "long") == 0 {
 		pad = rapid.SampledFrom(fragments).Draw(t, "pad")
 		size := rapid.SampledFrom([]int{200, 1 << 10, 16 << 10, 64 << 10}).Draw(t, "size")
-		padN = size / len(pad)
-		if padN*len(pad)+len(v) > 64<<10 {
-			padN = (64<<10 - len(v)) / len(pad)
+		limit := size / len(pad)
+		if limit*len(pad)+len(v) > 64<<10 {
+			limit = (64<<10 - len(v)) / len(pad)
 		}
-		if padN < 0 {
-			padN = 0
+		if limit < 1 {
+			limit = 1
+		}
+		// the larger of two draws: mostly close to the chosen size, and it shrinks to a short pad
+		padN = rapid.IntRange(1, limit).Draw(t, "padA")
+		if o := rapid.IntRange(1, limit).Draw(t, "padB"); o > padN {
+			padN = o
 		}
 	}
 	return v, pad, padN
